@@ -488,8 +488,32 @@ def fn(name, arg):
             return const(0)
         return _fn_atom("log", arg)
     if name in ("pos",):      # max(0, x)
+        c = arg.const_value()
+        if c is not None:
+            return const(max(c, 0))
+        if _obviously_nonneg(arg):
+            return arg
         return _fn_atom("pos", arg)
     return _fn_atom(name, arg)
+
+
+def _obviously_nonneg(arg):
+    """sum of monomials with positive coefficients made of abs / sqrt / pos atoms and
+    even powers, over a denominator of the same kind"""
+    def poly_ok(p):
+        for m, c in p.items():
+            if c < 0:
+                return False
+            for a, e in m:
+                if a[0] == "fn" and a[1] in ("abs", "sqrt", "pos", "exp", "specnorm"):
+                    continue
+                if a[0] == "ind":
+                    continue
+                if e % 2 == 0:
+                    continue
+                return False
+        return True
+    return poly_ok(arg.num) and poly_ok(arg.den)
 
 
 def _rational_sqrt(c):
